@@ -16,7 +16,7 @@ PROP = dict(
               "segment sequences; TLC proves the round trip for all roots x schemes x names of a small token universe; every "
               "real result is evaluated with the same definitions",
     rule="one trace = one pather class (root: absolute/relative x depth 0-3 x trailing slash, '/' and ''; scheme) x all name "
-         "classes of the scheme (token sequences incl. keyword look-alikes, malformed names), each concretised 20 (quick) / 200 "
+         "classes of the scheme (token sequences incl. keyword look-alikes, malformed names), each concretised 20 (quick) / 100 "
          "(thorough) times with random valid strings and run through the real New/BasePath/BlobPath/NameFromBlobPath; one "
          "record per distinct abstract outcome; non-trivial = a valid name was converted and converted back",
     assumptions=["root components are drawn from [a-z0-9._-] (no regexp metacharacters other than '.'); roots are clean apart "
